@@ -91,6 +91,8 @@ def bitop_byte(op, a, b, whole, k):
                 return q
     if a == b and op in ('or', 'and'):
         return a
+    if a == b and op == 'xor':
+        return ZERO
     return (op, a, b)   # byte-wide bit operation (both operands are byte terms)
 
 
